@@ -350,7 +350,45 @@ func (m *MsgClaim) ValidateBasic() (err error) {
 	if !ok {
 		return sdkerrors.ErrInvalidRequest.Wrapf("expected claim type %T, got %T", new(ExternalClaim), m.Claim.GetCachedValue())
 	}
-	return claim.ValidateBasic()
+	if err = claim.ValidateBasic(); err != nil {
+		return err
+	}
+	// the transaction is signed by the wrapper's bridger address, the vote is attributed
+	// to the wrapped claim's bridger address: they must be the same account and chain
+	if m.BridgerAddress != claim.GetClaimer().String() {
+		return sdkerrors.ErrInvalidRequest.Wrap("mismatched bridger address")
+	}
+	if chainMsg, ok := claim.(CrossChainMsg); ok && chainMsg.GetChainName() != m.ChainName {
+		return sdkerrors.ErrInvalidRequest.Wrap("mismatched chain name")
+	}
+	return nil
+}
+
+func (m *MsgConfirm) ValidateBasic() (err error) {
+	if _, ok := externalAddressRouter[m.ChainName]; !ok {
+		return sdkerrors.ErrInvalidRequest.Wrap("unrecognized cross chain name")
+	}
+	if m.Confirm == nil {
+		return sdkerrors.ErrInvalidRequest.Wrap("empty confirm")
+	}
+	confirm, ok := m.Confirm.GetCachedValue().(Confirm)
+	if !ok {
+		return sdkerrors.ErrInvalidRequest.Wrapf("expected confirm type %T, got %T", new(Confirm), m.Confirm.GetCachedValue())
+	}
+	if v, ok := confirm.(sdk.HasValidateBasic); ok {
+		if err = v.ValidateBasic(); err != nil {
+			return err
+		}
+	}
+	// the transaction is signed by the wrapper's bridger address, the confirmation is
+	// attributed to the wrapped message's bridger address: they must be the same
+	if m.BridgerAddress != confirm.GetBridgerAddress() {
+		return sdkerrors.ErrInvalidRequest.Wrap("mismatched bridger address")
+	}
+	if m.ChainName != confirm.GetChainName() {
+		return sdkerrors.ErrInvalidRequest.Wrap("mismatched chain name")
+	}
+	return nil
 }
 
 func (m *MsgClaim) GetSigners() []sdk.AccAddress {
